@@ -1,12 +1,12 @@
 CONSTANTS
   Ttl1 = 4
-  Ttl2 = 1
+  Ttl2 = 2
   NL = 2
   SessTtl = 3
   MaxSess = 3
-  TMax = 8
-  Depth = 6
-  MaxGap = 4
+  TMax = 7
+  Depth = 5
+  MaxGap = 3
 SPECIFICATION Spec
 INVARIANT Inv
 INVARIANT Emit
